@@ -147,7 +147,7 @@ class Ctx:
 
     def record(self, case, res, sample=True):
         self.evaluations += 1
-        if res.discard is not None:
+        if res.discard is not None and not res.violations:
             self.discards[res.discard] = self.discards.get(res.discard, 0) + 1
             self.classes['discarded'] = self.classes.get('discarded', 0) + 1
             return
